@@ -17,7 +17,8 @@ RULE = ("E1: left documents = every document <= 3 nodes (no booleans) plus "
         "the C05 family, x merge paths in four classes - (1) the coordinate "
         "path of every existing node, (2) paths matching several nodes "
         "(/*, /a/*, /**/a, a search), (1b) left documents whose target is an anchored list/hash or an alias of one (all 180 policies), (3) a missing but creatable key/index "
-        "tail under every container, (4) an unmatchable search - x 8 "
+        "tail under every container (and, for an empty left document, the "
+        "whole path), (4) an unmatchable search - x 8 "
         "right-hand documents covering every root kind (hash, nested hash, "
         "array, Array-of-Hashes, set, int, text) x rotating C05 policy "
         "combinations. Oracle: targets come from the C01 reference "
@@ -133,6 +134,8 @@ def check_case(ltext, klass, segs, rspec, pol, res):
     ldoc, ok = gdocs.load(ltext)
     rtext = gdocs.emit(rspec)
     rdoc, ok2 = gdocs.load(rtext)
+    if klass == "empty-left":
+        return _check_empty_left(ltext, segs, rtext, rdoc, pol, res)
     if not (ok and ok2) or ldoc is None:
         return
     ptext = gpaths.render(segs, "/")
@@ -269,12 +272,49 @@ ALIASED_LEFTS = [
 ]
 
 
+def _check_empty_left(ltext, segs, rtext, rdoc, pol, res):
+    """An empty left document: the whole path is missing and must be created
+    to hold the right-hand document."""
+    from yamlpath.merger import Merger, MergerConfig
+    from yamlpath.merger.exceptions import MergeException
+    ptext = gpaths.render(segs, "/")
+    case = {"lhs": ltext, "rhs": rtext, "mergeat": ptext,
+            "policy": pol.as_dict(), "class": "empty-left"}
+    res.evaluations += 1
+    rc = canon(rdoc)
+    args = SimpleNamespace(hashes=pol.hashes, arrays=pol.arrays, aoh=pol.aoh,
+                           sets=pol.sets, anchors="stop", mergeat=ptext)
+    try:
+        merger = Merger(gdocs.logger(), None,
+                        MergerConfig(gdocs.logger(), args))
+        merger.merge_with(rdoc)
+    except MergeException as exc:
+        res.fail({"clause": "unexpected-merge-error",
+                  "shape": "empty-left:" + mm.kind(rc)}, case, str(exc))
+        return
+    except Exception as exc:
+        etype, frame_, src = exc_site(exc)
+        res.fail({"clause": "never-a-crash", "exc": etype, "frame": frame_,
+                  "at": src[:60]}, case, "%s: %s" % (etype, exc))
+        return
+    why = mm.check(tail_pattern(list(segs), rc), canon(merger.data))
+    if why:
+        res.fail({"clause": "missing-path-is-created-to-hold-R",
+                  "shape": "empty-left:" + mm.kind(rc)}, case,
+                 "%s\nafter %s" % (why, json.dumps(canon(merger.data))))
+        return
+    res.nontrivial()
+    res.label("class:empty-left")
+    res.label("rhs:" + mm.kind(rc))
+
+
 def plan(tier, seed):
     nsh = 48
     shards = [{"kind": "grid", "part": i, "parts": nsh, "offset": seed,
                "stride": 1} for i in range(nsh)]
     for i in range(8):
         shards.append({"kind": "aliased", "part": i, "parts": 8})
+    shards.append({"kind": "empty-left"})
     return shards
 
 
@@ -294,6 +334,17 @@ def run_shard(shard):
                         if n % shard["parts"] != shard["part"]:
                             continue
                         check_case(ltext, "existing", segs, rspec,
+                                   c05.policy_for(j, with_rules=False), res)
+        return res
+    if shard["kind"] == "empty-left":
+        paths_ = [[("key", "n")], [("key", "n"), ("key", "m")],
+                  [("key", "a"), ("key", "b"), ("key", "c")],
+                  [("index", 0)], [("key", "n"), ("index", 0)]]
+        for ltext in ("", "# nothing here\n", "---\n"):
+            for segs in paths_:
+                for rspec in RIGHTS:
+                    for j in (0, 7, 45, 101, 179):
+                        check_case(ltext, "empty-left", segs, rspec,
                                    c05.policy_for(j, with_rules=False), res)
         return res
     fam, base = c05.corpus()
